@@ -9,6 +9,7 @@ import (
 	"bytes"
 	"fmt"
 	"runtime"
+	"sort"
 	"strconv"
 	"strings"
 	"sync"
@@ -66,10 +67,30 @@ type Sched struct {
 	// SkippedLocked counts yield points passed without parking for that reason.
 	SkippedLocked int
 	last          uint64 // goroutine released at the previous step
+	// Canonical orders the parked goroutines by role name (w0, w1, d, flush, r0 ...; learned from their
+	// role-specific yield points) instead of arrival order, so that a tape means the same schedule even if
+	// goroutines that became runnable together reach their yield points in a different order.
+	Canonical bool
+	roles     map[uint64]string
+}
+
+func roleOf(point string) string {
+	i := strings.IndexByte(point, ':')
+	if i <= 0 {
+		return ""
+	}
+	p := point[:i]
+	if p == "d" || p == "flush" {
+		return p
+	}
+	if len(p) >= 2 && (p[0] == 'w' || p[0] == 'r') && p[1] >= '0' && p[1] <= '9' {
+		return p
+	}
+	return ""
 }
 
 // New returns an active scheduler.
-func New() *Sched { return &Sched{locked: map[uint64]int{}} }
+func New() *Sched { return &Sched{locked: map[uint64]int{}, roles: map[uint64]string{}} }
 
 // Yield parks the calling goroutine until the controller releases it.
 func (s *Sched) Yield(point string) {
@@ -100,6 +121,9 @@ func (s *Sched) Yield(point string) {
 		return
 	}
 	w := &waiter{point: point, ch: make(chan struct{}), gid: goid()}
+	if r := roleOf(point); r != "" {
+		s.roles[w.gid] = r
+	}
 	s.parked = append(s.parked, w)
 	s.mu.Unlock()
 	<-w.ch
@@ -140,6 +164,15 @@ func (s *Sched) Run(tape []int, done func() bool, maxSteps int, tick time.Durati
 			continue
 		}
 		idle = 0
+		if s.Canonical {
+			sort.SliceStable(s.parked, func(i, j int) bool {
+				ri, rj := s.roles[s.parked[i].gid], s.roles[s.parked[j].gid]
+				if ri != rj {
+					return ri < rj
+				}
+				return s.parked[i].point < s.parked[j].point
+			})
+		}
 		k := 0
 		if s.Steps < len(tape) {
 			tv := tape[s.Steps]
